@@ -1,8 +1,9 @@
 (* Wait — executable model of "a reader at the end of a stream is woken by new data":
    (A) the reader side: reading a journal to its end and the position it is left with
        (github.com/logrange/range journal.JIterator.Get/Next over chunkfs.cIterator, which is what
-       /repo/pkg/cursor uses for queries without RANGE and what the pipe workers use; the same shape is in
-       /repo/pkg/partition/jiterator.go + cselector.go getPosForward for RANGE queries),
+       /repo/pkg/cursor uses for queries without RANGE and what the pipe workers use: variant reload = true;
+       /repo/pkg/partition/jiterator.go + cselector.go getPosForward for RANGE queries has the same shape
+       and keeps the position of the end-of-data decision: variant reload = false),
    (B) the wait protocol: crsr.WaitNewData -> Chunks().WaitForNewData (chunkListener.waitData) against the chunk
        writer's flush (cntCfrmd store, then chunkListener.OnNewData).
    Definitions only. *)
@@ -33,8 +34,9 @@ Record rd := { r_pos : nat; r_open : bool; r_cached : bool }.
 
 Inductive gres := GRec (i : nat) | GEof | GBad.   (* GBad: the trace does not fit the calls made *)
 
-(* JIterator.Get. reload = the position left at EOF is a fresh Count() (the code) instead of the position the
-   end-of-data decision was made at (the repair). *)
+(* JIterator.Get. reload = the position left at EOF is a fresh Count() (the journal iterator of the dependency)
+   instead of the position the end-of-data decision was made at (/repo's own iterator for RANGE queries, which
+   takes the same look but restores the position the chunk iterator reported EOF at). *)
 Definition rd_get (reload : bool) (r : rd) (tr : trace) : gres * rd * trace :=
   (* ensureChkIt: open the chunk iterator at r_pos; cIterator.SetPos(p) returns at once if p is its position (0
      for a new iterator), otherwise clamps p to the count *)
@@ -65,21 +67,15 @@ Definition rd_get (reload : bool) (r : rd) (tr : trace) : gres * rd * trace :=
       end
   end.
 
-(* JIterator.Next: Get, then (if a chunk iterator is open) step it. The repair (proposed_fixes/C11-eof-count-reread:
-   a guard around the library iterator) does its own Get first, so the library's Next finds the fetched record
-   with one more call of the chunk iterator's Get. *)
+(* JIterator.Next: Get, then (if a chunk iterator is open) step it. *)
 Definition rd_next (reload : bool) (r : rd) (tr : trace) : bool * rd * trace :=
   match rd_get reload r tr with
   | (GBad, r', tr') => (false, r', tr')
   | (GEof, r', tr') => (true, r', tr')
   | (GRec _, r', tr') =>
-      match (if reload then Some (0, tr') else take OG tr') with
+      match take ON tr' with
       | None => (false, r', tr')
-      | Some (_, tr1) =>
-          match take ON tr1 with
-          | None => (false, r', tr1)
-          | Some (_, tr'') => (true, {| r_pos := S (r_pos r'); r_open := true; r_cached := false |}, tr'')
-          end
+      | Some (_, tr'') => (true, {| r_pos := S (r_pos r'); r_open := true; r_cached := false |}, tr'')
       end
   end.
 
@@ -122,10 +118,12 @@ Fixpoint mono_from (c : nat) (tr : trace) : Prop :=
   | (_, c') :: tl => c <= c' /\ mono_from c' tl
   end.
 
-(* does the code re-read the count for the position it leaves at EOF? (true = the code as it stands) *)
+(* does the reader re-read the count for the position it leaves at EOF?
+   journal.JIterator of the dependency github.com/logrange/range (queries without RANGE, pipe workers): yes *)
 Definition code_reloads_count : bool := true.
-(* the same question for /repo/pkg/partition/jiterator.go + cselector.go getPosForward (queries with RANGE) *)
-Definition code_reloads_count_range : bool := true.
+(* /repo/pkg/partition/jiterator.go + cselector.go getPosForward (queries with RANGE): no -- Get restores the position
+   at which the chunk iterator reported EOF, getPosForward answers with the count its decision was made on *)
+Definition code_reloads_count_range : bool := false.
 
 (* ------------------------------------------------------------------ (B) the wait protocol, one partition, one waiter *)
 
